@@ -58,8 +58,16 @@ func instreamFineSediment(upstreamMass, lateralMass, reachLocalMass, reachVolume
 	loadDownstream, loadToFloodplain, loadToChannelDeposition, floodplainDepositionFraction, channelDepositionFraction data.ND1Float64) (float64, float64) {
 
 	if bankFullFlow <= 1e-8 {
+		// material generated within the reach enters the water column like the lateral load
+		nSteps := lateralMass.Len1()
+		lateralAndLocalMass := data.NewArray1DFloat64(nSteps)
+		step := []int{0}
+		for i := 0; i < nSteps; i++ {
+			step[0] = i
+			lateralAndLocalMass.Set(step, lateralMass.Get(step)+reachLocalMass.Get(step))
+		}
 		totalStoredMass = LumpedConstituentTransport(
-			upstreamMass, lateralMass, outflow, reachVolume,
+			upstreamMass, lateralAndLocalMass, outflow, reachVolume,
 			totalStoredMass,
 			0, 0.0, durationInSeconds,
 			loadDownstream,nil)
